@@ -242,10 +242,12 @@ class NDNApp:
         future = aio.get_running_loop().create_future()
         if Component.get_type(final_name[-1]) == Component.TYPE_IMPLICIT_SHA256:
             node_name = final_name[:-1]
-            implicit_sha256 = Component.get_value(final_name[-1])
+            implicit_sha256 = bytes(Component.get_value(final_name[-1]))
         else:
             node_name = final_name
             implicit_sha256 = b''
+        # The pending entry outlives this call: do not keep views into a buffer the caller may reuse
+        node_name = [bytes(c) for c in node_name]
         node = self._int_tree.setdefault(node_name, InterestTreeNode())
         node.append_interest(future, interest_param, implicit_sha256)
         self.face.send(raw_interest)
